@@ -6,7 +6,14 @@
  R10.2 MonoPoly::calculate_coordinate_position: a coordinate collinear with the bounding top/bottom segment is reported on
        the boundary only if it lies within that segment (table on integer witnesses incl. vertical segments)
  R10.3 stitching: the exterior among several rings is the one that contains ALL the others
-Not decided: tiling / no overlap, Delaunay (spade), areas of stitched polygons, the sweep of the monotone builder.
+ R10.6 stitching: a ring is a hole of a parent ring iff Polygon(parent).contains(the whole ring) — the DE-9IM predicate on the ring, not a
+       vertex sample (all vertices of a hole may lie on the parent's outline)
+ R10.4 monotone builder: in every `X.finish_with(Y)` X is a lower and Y an upper chain: a chain fetched through the first entry of a
+       `help` pair (top chain of the region below a merge vertex) is never the receiver, one fetched through the second entry (bottom
+       chain of the region above) never the argument
+ R10.5 monotone builder: every way through the arms that continue an incoming chain updates the helper of the segment below
+       (textbook invariant helper(e_j) <- v_i), unless there is no segment below
+Not decided: tiling / no overlap, Delaunay (spade), areas of stitched polygons, correctness of the sweep as a whole.
 """
 import itertools
 import re
@@ -31,6 +38,9 @@ def run(rep, tier):
     earcut_layout(rep, F)
     monopoly_position(rep, F)
     stitch_fold(rep, F)
+    parent_test(rep, F)
+    builder_roles(rep, F)
+    helper_update(rep, F)
 
 
 def earcut_layout(rep, F):
@@ -183,3 +193,128 @@ def stitch_fold(rep, F):
         rep.ok("R10.3", "outmost=contains-all-others")
     else:
         rep.bad("R10.3", "outmost-fold", "the outermost ring is chosen with %s over the other rings: with `any`, a ring that contains only one of several loops is taken as exterior and the remaining loops become holes" % kinds, where=fn.loc())
+
+
+def builder_roles(rep, F):
+    from ..origin import Origin
+    rep.rule("R10.4", "monotone builder: finish_with(lower, upper): the chain taken through help[0] is never the receiver, the chain taken through help[1] never the argument")
+    try:
+        fn = F.one(r"monotone::builder::Builder::<T>::process_next_pt$", crates=("geo",))
+    except KeyError as e:
+        rep.bad("R10.4", "anchor", str(e))
+        return
+    O = Origin(fn)
+    n = 0
+    for c in fn.calls():
+        if not (c.path or "").endswith("::finish_with") or len(c.args) != 2:
+            continue
+        n += 1
+        recv, arg = O.operand(c.args[0]), O.operand(c.args[1])
+
+        def role(e):
+            m = re.search(r"index_mut\(&\*arg1\.chains, (.*)\)\)\)$", e)
+            if not m:
+                return "?"
+            idx = m.group(1)
+            if re.search(r"as Some\)\.0\[0\]$", idx):
+                return "help[0]"
+            if re.search(r"as Some\)\.0\[1\]$", idx):
+                return "help[1]"
+            if idx.endswith(".chain_idx)"):
+                return "segment"
+            return "?"
+        rr, ra = role(recv), role(arg)
+        if rr == "?" or ra == "?":
+            rep.bad("R10.4", "provenance", "the chains joined at line %s are not taken from self.chains through a segment's chain_idx or a help pair (%s / %s)" % (c.line, recv[:80], arg[:80]), where=fn.loc())
+        elif rr == "help[0]" or ra == "help[1]":
+            rep.bad("R10.4", "roles", "line %s joins %s.finish_with(%s): help = [top chain of the region below, bottom chain of the region above], so help[0] must be the upper (argument) "
+                    "and help[1] the lower (receiver) chain of the piece; swapped, the piece's top and bottom chains are exchanged and point location in it fails" % (c.line, rr, ra), where=fn.loc())
+        else:
+            rep.ok("R10.4", "finish_with:%s.finish_with(%s)" % (rr, ra))
+    rep.floor("R10.4", "finish_with sites", n, 6)
+
+
+def helper_update(rep, F):
+    from ..origin import Origin
+    rep.rule("R10.5", "monotone builder: from every arm that continues an incoming chain, every way to the return passes a helper_chain.set on the segment below, or the test that there is none")
+    try:
+        fn = F.one(r"monotone::builder::Builder::<T>::process_next_pt$", crates=("geo",))
+    except KeyError as e:
+        rep.bad("R10.5", "anchor", str(e))
+        return
+    O = Origin(fn, stop=("in_chains", "bot_segment"))
+    names = {n: p["l"] for n, p in fn.d.get("names", []) if not p["p"]}
+    inch, bot = names.get("in_chains"), names.get("bot_segment")
+    if inch is None or bot is None:
+        rep.bad("R10.5", "anchor", "locals in_chains / bot_segment not found", where=fn.loc())
+        return
+    sets = set()
+    for c in fn.calls():
+        if (c.path or "").endswith("Cell::<T>::set") and ".helper_chain" in O.operand(c.args[0]):
+            sets.add(c.bb)
+    if len(sets) < 3:
+        rep.bad("R10.5", "floor", "only %d helper_chain.set sites" % len(sets), where=fn.loc())
+        return
+    # arm entries: switch on the discriminant of in_chains.0 taking the Some edge
+    entries = []
+    none_edges = set()
+    for i, b in enumerate(fn.blocks):
+        t = b["t"]
+        if t.get("k") != "switch":
+            continue
+        d = O.operand(t["discr"])
+        tg = dict((v, bb) for v, bb in t["targets"])
+        if d == "discr(in_chains.0)":
+            some = tg.get(1, t["otherwise"] if 1 not in tg else None)
+            if some is not None:
+                entries.append(some)
+        if d == "discr(bot_segment)":
+            none = tg.get(0, t["otherwise"] if 0 not in tg else None)
+            if none is not None:
+                none_edges.add((i, none))
+    if not entries:
+        rep.bad("R10.5", "shape", "the match on in_chains was not found", where=fn.loc())
+        return
+    rets = set(fn.return_blocks())
+    for e in entries:
+        seen, todo, bad = set(), [e], None
+        while todo:
+            x = todo.pop()
+            if x in seen or x in sets:
+                continue
+            seen.add(x)
+            if x in rets:
+                bad = x
+                break
+            for y in fn.succ(x):
+                if (x, y) in none_edges:
+                    continue
+                todo.append(y)
+        if bad is not None:
+            rep.bad("R10.5", "helper-not-updated", "from the arm at bb%d (an incoming chain is continued at this event) the return is reachable without helper_chain.set on the segment below "
+                    "and without finding that there is no such segment: a later split vertex above that segment is then connected to a stale helper chain" % e, where=fn.loc())
+        else:
+            rep.ok("R10.5", "arm@in_chains.0=Some")
+
+
+def parent_test(rep, F):
+    rep.rule("R10.6", "stitch: the parent test of find_parent_idxs is <Polygon as Contains<LineString>>::contains(Polygon::new(parent, []), ring), with no fold over the ring's coordinates")
+    fs = [f for f in F.find(r"stitch::stitch_multipolygon_from_lines::find_parent_idxs", crates=("geo",))]
+    if not fs:
+        rep.bad("R10.6", "anchor", "find_parent_idxs not found")
+        return
+    tests = []
+    folds = []
+    for g in fs:
+        for c in g.calls():
+            if c.method in ("contains", "intersects", "within", "coordinate_position", "is_contains") and (c.trait or "").startswith("geo::"):
+                tests.append((g, c, [str(t) for t in c.raw.get("arg_tys", [])]))
+            if c.trait == "core::iter::traits::iterator::Iterator" and c.method in ("any", "all"):
+                folds.append((g, c))
+    good = len(tests) == 1 and tests[0][1].method == "contains" and len(tests[0][2]) == 2 and tests[0][2][0].endswith("polygon::Polygon<F>") and tests[0][2][1].endswith("line_string::LineString<F>") and not folds
+    if good:
+        rep.ok("R10.6", "parent=Polygon.contains(ring)")
+    else:
+        rep.bad("R10.6", "parent-test", "the parent test is %s%s: a hole whose vertices all lie on the outline of its parent (pieces touching in single points around a void) is then not "
+                "recognised and is emitted as a separate polygon" % ([(t[1].method, [x.rsplit("::", 1)[-1] for x in t[2]]) for t in tests], " under an `%s` over coordinates" % folds[0][1].method if folds else ""),
+                where=fs[0].loc())
